@@ -168,6 +168,29 @@ func vfHavocP(c *Client) {
 
 func vfStubStage(c *Client, other *Coordinate, rttSeconds float64) { vfHavocP(c) }
 
+// vfPE: the error is not negative (or NaN, which the final IsValid check turns into a reset).
+func vfPE(c *Client) bool { return vfOr(c.coord.Error >= 0, math.IsNaN(c.coord.Error)) }
+
+// Stage stubs of the frame that also carry the error-sign contract:
+// updateVivaldi keeps PE when the peer's error is not negative
+// (VfC20_StageVivaldiError), the other two stages do not touch the error
+// (C20.stage.adjustment.error / C20.stage.gravity.error).
+func vfStubVivaldiPE(c *Client, other *Coordinate, rttSeconds float64) {
+	pre := vfPE(c)
+	vfHavocP(c)
+	vfAssume(vfImplies(vfAnd(pre, other.Error >= 0), vfPE(c)))
+}
+func vfStubAdjustPE(c *Client, other *Coordinate, rttSeconds float64) {
+	pre := vfPE(c)
+	vfHavocP(c)
+	vfAssume(vfImplies(pre, vfPE(c)))
+}
+func vfStubGravityPE(c *Client) {
+	pre := vfPE(c)
+	vfHavocP(c)
+	vfAssume(vfImplies(pre, vfPE(c)))
+}
+
 var vfFilterCalls int
 
 // vfStubFilter replaces latencyFilter in the frame: it may record the sample
@@ -223,6 +246,62 @@ func VfC20_StageVivaldi() {
 	vfAssert("C20.stage.vivaldi.P", vfP(c, d))
 }
 
+// VfC20_StageVivaldiError: updateVivaldi keeps the error at or above zero (or
+// NaN) when the peer's error is not negative. The error update
+//   e' = ce*w*wrongness + e*(1 - ce*w),  w = e / max(e + peerError, 1e-6)
+// is executed with exact IEEE-754 semantics (the instructions of updateVivaldi
+// itself). Its two callees are cut: DistanceTo returns an arbitrary duration
+// and ApplyForce an arbitrary coordinate with the same error
+// (VfC20_ApplyForceError proves that ApplyForce copies the error).
+//
+//vf:unwind 16
+//vf:fpabstract add sub mul div sqrt pow
+//vf:fpexactin updateVivaldi
+//vf:timeout 300s
+//vf:fpsolver cvc5
+//vf:override (*github.com/hashicorp/serf/coordinate.Coordinate).DistanceTo = github.com/hashicorp/serf/coordinate.vfStubDistanceTo
+//vf:override (*github.com/hashicorp/serf/coordinate.Coordinate).ApplyForce = github.com/hashicorp/serf/coordinate.vfStubApplyForce
+//vf:bound state dimension 1; local error: any double in [0, max] or NaN; peer error: any finite double >= 0; rtt: any double; distance to the peer: any double
+//vf:stub DistanceTo -> arbitrary duration; ApplyForce -> arbitrary coordinate carrying the same error (proved by VfC20_ApplyForceError)
+//vf:nonative
+func VfC20_StageVivaldiError() {
+	d := 1
+	c := vfC20ArbClient(d)
+	vfAssume(vfPE(c))
+	peer := vfC20ValidPeer(d)
+	vfAssume(peer.Error >= 0)
+	c.updateVivaldi(peer, vfF64("rtt"))
+	vfReach("C20.stage.vivaldi.error.done")
+	vfAssert("C20.stage.vivaldi.error.nonneg", vfPE(c))
+}
+
+func vfStubDistanceTo(c *Coordinate, other *Coordinate) time.Duration { return time.Duration(vfI64("dist")) }
+
+func vfStubApplyForce(c *Coordinate, config *Config, force float64, other *Coordinate) *Coordinate {
+	r := &Coordinate{Vec: make([]float64, len(c.Vec)), Error: c.Error, Adjustment: vfF64("af.adjustment"), Height: vfF64("af.height")}
+	for i := range r.Vec {
+		r.Vec[i] = vfF64("af.vec")
+	}
+	return r
+}
+
+// VfC20_ApplyForceError: the real ApplyForce returns a coordinate with the error
+// of its receiver (bit for bit), for arbitrary doubles everywhere.
+//
+//vf:unwind 16
+//vf:fpabstract add sub mul div sqrt pow
+//vf:nonative
+func VfC20_ApplyForceError() {
+	d := 1
+	if vfTier() == 1 {
+		d = 1 + vfChoice("dim", 2)
+	}
+	c := vfC20ArbClient(d)
+	r := c.coord.ApplyForce(c.config, vfF64("force"), vfC20ValidPeer(d))
+	vfReach("C20.applyforce.done")
+	vfAssert("C20.applyforce.error.kept", r != nil && r != c.coord && vfSameF(r.Error, c.coord.Error))
+}
+
 // VfC20_StageAdjustment: updateAdjustment keeps P (it touches neither height nor error).
 //
 //vf:unwind 16
@@ -234,8 +313,10 @@ func VfC20_StageAdjustment() {
 		d = 1 + vfChoice("dim", 2)
 	}
 	c := vfC20ArbClient(d)
+	e0 := c.coord.Error
 	c.updateAdjustment(vfC20ValidPeer(d), vfF64("rtt"))
 	vfReach("C20.stage.adjustment.done")
+	vfAssert("C20.stage.adjustment.error", vfSameF(e0, c.coord.Error))
 	vfAssert("C20.stage.adjustment.P", vfP(c, d))
 	vfAssert("C20.stage.adjustment.index", c.adjustmentIndex < 2)
 }
@@ -251,8 +332,10 @@ func VfC20_StageGravity() {
 		d = 1 + vfChoice("dim", 2)
 	}
 	c := vfC20ArbClient(d)
+	e0 := c.coord.Error
 	c.updateGravity()
 	vfReach("C20.stage.gravity.done")
+	vfAssert("C20.stage.gravity.error", vfSameF(e0, c.coord.Error))
 	vfAssert("C20.stage.gravity.P", vfP(c, d))
 }
 
@@ -262,9 +345,9 @@ func VfC20_StageGravity() {
 //vf:unwind 16
 //vf:paths quick=400000 thorough=4000000
 //vf:fpabstract add sub mul div sqrt pow
-//vf:override (*github.com/hashicorp/serf/coordinate.Client).updateVivaldi = github.com/hashicorp/serf/coordinate.vfStubStage
-//vf:override (*github.com/hashicorp/serf/coordinate.Client).updateAdjustment = github.com/hashicorp/serf/coordinate.vfStubStage
-//vf:override (*github.com/hashicorp/serf/coordinate.Client).updateGravity = github.com/hashicorp/serf/coordinate.vfStubGravity
+//vf:override (*github.com/hashicorp/serf/coordinate.Client).updateVivaldi = github.com/hashicorp/serf/coordinate.vfStubVivaldiPE
+//vf:override (*github.com/hashicorp/serf/coordinate.Client).updateAdjustment = github.com/hashicorp/serf/coordinate.vfStubAdjustPE
+//vf:override (*github.com/hashicorp/serf/coordinate.Client).updateGravity = github.com/hashicorp/serf/coordinate.vfStubGravityPE
 //vf:override (*github.com/hashicorp/serf/coordinate.Coordinate).IsValid = github.com/hashicorp/serf/coordinate.vfIsValidNF
 //vf:override (*github.com/hashicorp/serf/coordinate.Client).latencyFilter = github.com/hashicorp/serf/coordinate.vfStubFilter
 //vf:bound state dimension quick=1 thorough=1..2; adjustment window 2 (any index), latency filter 2 with 0..1 earlier samples; peer: same / larger / zero dimension, every double (NaN, infinities) in every field; round-trip time: every int64 duration
@@ -305,6 +388,10 @@ func VfC20_Update() {
 	ok = vfAnd(ok, vfAnd(vfF(c.coord.Error), vfAnd(vfF(c.coord.Adjustment), vfF(c.coord.Height))))
 	ok = vfAnd(ok, vfAnd(c.coord.Height >= c.config.HeightMin, c.coord.Error <= c.config.VivaldiErrorMax))
 	vfAssert("C20.valid.after.accept", ok)
+	// ... and the error stays at or above zero when the peer reported a non-negative error
+	if peer.Error >= 0 {
+		vfAssert("C20.error.nonneg", c.coord.Error >= 0)
+	}
 	// the returned coordinate is an independent copy of the local one
 	same := got != nil && got != c.coord && len(got.Vec) == len(c.coord.Vec)
 	if same {
